@@ -5,7 +5,7 @@ from __future__ import annotations
 
 from .. import models as M
 from .. import rulespace as RS
-from ..drive import eval_layer_rule, eval_rule, make_evaluable, reuse_aware, to_filter, warmup
+from ..drive import eval_layer_rule, eval_rule, evaluable_for, make_evaluable, reuse_aware, to_filter, warmup
 from ..msgparse import parse_message
 from . import c01
 
@@ -145,7 +145,7 @@ def check_pair(tree, imports, rule, ev, impl_rule=None) -> dict:
 @reuse_aware
 def check_case(spec: dict) -> dict:
     tree, imports = spec["tree"], [tuple(e) for e in spec["imports"]]
-    ev = make_evaluable(tree, imports)
+    ev = evaluable_for(spec)
     if spec.get("layers"):
         return check_layer_report(tree, imports, spec["layers"], spec["rule"], ev)
     if spec.get("query"):
@@ -153,6 +153,8 @@ def check_case(spec: dict) -> dict:
     res = check_pair(tree, imports, spec.get("model_rule", spec["rule"]), ev, spec["rule"])
     if "model_rule" in spec:
         res["labels"].append("regex-form-of-a-named-side")
+    if spec.get("full_tree"):
+        res["labels"].append("flattened-by-level-limit")
     return res
 
 
